@@ -28,11 +28,26 @@ const (
 type config struct {
 	Cap       int   `json:"capacity"`
 	RateMilli int64 `json:"rate_milli_per_s"`
+	// Fractional: the capacity is CapMilli/1000 tokens instead of Cap
+	Fractional bool  `json:"fractional,omitempty"`
+	CapMilli   int64 `json:"cap_milli,omitempty"`
 }
 
 func (c config) rate() float64 { return float64(c.RateMilli) / 1000 }
+func (c config) capF() float64 {
+	if c.Fractional {
+		return float64(c.CapMilli) / 1000
+	}
+	return float64(c.Cap)
+}
+func (c config) capUnits() int64 {
+	if c.Fractional {
+		return c.CapMilli * (unit / 1000)
+	}
+	return int64(c.Cap) * unit
+}
 func (c config) String() string {
-	return fmt.Sprintf("cap=%d rate=%g/s", c.Cap, c.rate())
+	return fmt.Sprintf("cap=%g rate=%g/s", c.capF(), c.rate())
 }
 func (c config) rateClass() string {
 	if c.RateMilli < 500 {
@@ -116,13 +131,16 @@ var (
 
 type stuckWait struct{}
 
+// shortHorizon: the configuration's bucket never holds a whole token; a Wait is given up after 2 s of virtual time
+var shortHorizon bool
+
 func installClock() {
 	vsched.SeqMode(true)
 	vsched.SeqClock = func() time.Time { return epoch.Add(time.Duration(clock)) }
 	vsched.SeqSleep = func(d time.Duration) {
 		clock += int64(d)
 		slept += int64(d)
-		if slept > waitHorizon {
+		if slept > waitHorizon || shortHorizon && slept > 2*nsS {
 			panic(stuckWait{})
 		}
 	}
@@ -158,7 +176,7 @@ func penaltyNs(k int) int64 {
 }
 
 func (o *oracle) refillTo(c config, now int64) {
-	o.Level = min(int64(c.Cap)*unit, o.Level+(now-o.LevelAt)*c.RateMilli)
+	o.Level = min(c.capUnits(), o.Level+(now-o.LevelAt)*c.RateMilli)
 	o.LevelAt = now
 }
 
@@ -187,12 +205,12 @@ type judge struct {
 	rels []int64
 }
 
-func newJudge(c config) judge { return judge{c: c, or: oracle{Level: int64(c.Cap) * unit}} }
+func newJudge(c config) judge { return judge{c: c, or: oracle{Level: c.capUnits()}} }
 
 // checkRanges: tokens in [0,capacity]; min(0.5, rate) <= refill rate <= rate (exact comparisons, NaN fails).
 func checkRanges(c config, s ratelimiter.VerifState, after string) *violation {
-	if !(s.Tokens >= 0 && s.Tokens <= float64(c.Cap)) {
-		return &violation{"tokens-out-of-range:after-" + after, fmt.Sprintf("tokens=%v outside [0,%d]", s.Tokens, c.Cap)}
+	if !(s.Tokens >= 0 && s.Tokens <= c.capF()) {
+		return &violation{"tokens-out-of-range:after-" + after, fmt.Sprintf("tokens=%v outside [0,%g]", s.Tokens, c.capF())}
 	}
 	if !(s.RefillRate <= c.rate()) {
 		return &violation{"refill-rate-above-configured:after-" + after + ":" + c.rateClass(), fmt.Sprintf("refill rate %v/s exceeds the configured %v/s", s.RefillRate, c.rate())}
@@ -215,12 +233,15 @@ func (j *judge) release(t int64, fc int) *violation {
 	// window clause, literal: every window [t_i, t] ending at this release
 	var bad string
 	n := len(j.rels)
-	for i := n - 1; i >= 0; i-- {
+	if unit > c.capUnits()+tol { // the window [t, t]
+		bad = fmt.Sprintf("1 release in the window [%v,%v] of length 0, more than the capacity %g", time.Duration(t), time.Duration(t), c.capF())
+	}
+	for i := n - 1; i >= 0 && bad == ""; i-- {
 		count := int64(n - i + 1)
 		T := t - j.rels[i]
-		if count*unit > int64(c.Cap)*unit+T*c.RateMilli+tol {
-			bad = fmt.Sprintf("%d releases in the window [%v,%v] of length %v, more than capacity + T*rate = %d + %.3f",
-				count, time.Duration(j.rels[i]), time.Duration(t), time.Duration(T), c.Cap, float64(T)/1e9*c.rate())
+		if count*unit > c.capUnits()+T*c.RateMilli+tol {
+			bad = fmt.Sprintf("%d releases in the window [%v,%v] of length %v, more than capacity + T*rate = %g + %.3f",
+				count, time.Duration(j.rels[i]), time.Duration(t), time.Duration(T), c.capF(), float64(T)/1e9*c.rate())
 			break
 		}
 	}
@@ -282,7 +303,7 @@ func newWorld(c config) *world {
 	clock = 0
 	bm := managers[c]
 	if bm == nil {
-		bm = ratelimiter.NewBucketManager(context.Background(), 1, float64(c.Cap), c.rate(), 5*time.Minute)
+		bm = ratelimiter.NewBucketManager(context.Background(), 1, c.capF(), c.rate(), 5*time.Minute)
 		managers[c] = bm
 	}
 	worldHost++
@@ -312,7 +333,10 @@ func (w *world) apply(e event) *violation {
 			}()
 			w.tb.Wait()
 			return false
-		}(); stuck {
+		}(); stuck && c.capF() < 1 {
+			// a bucket that never holds a whole token releases nothing: the bounds hold, the history goes on without a release
+			return checkRanges(c, w.tb.VerifGet(), evClass(e))
+		} else if stuck {
 			return &violation{"acquire-not-released:" + c.rateClass(), fmt.Sprintf("Wait did not return within %v of virtual time although the refill rate may not fall below min(0.5, rate) and penalties end after 30 s", time.Duration(waitHorizon))}
 		}
 		v = w.release(clock, pre.FailureCount)
@@ -353,7 +377,7 @@ func (w *world) canon() key {
 	if w.or.BlockedUntil > clock {
 		k.blockedRel, k.blockedK = w.or.BlockedUntil-clock, int64(w.or.BlockedK)
 	}
-	if s.Capacity != float64(w.c.Cap) || s.IdealRate != w.c.rate() {
+	if s.Capacity != w.c.capF() || s.IdealRate != w.c.rate() {
 		hkit.EngineError("capacity/ideal rate changed: %+v", s)
 	}
 	o := w.or
@@ -542,6 +566,7 @@ func sweepAlphabet() []event {
 
 func runSeq(c config, p seqPlan) *seqResult {
 	installClock()
+	shortHorizon = c.capF() < 1
 	res := &seqResult{Config: c, Exhaustive: true}
 	s := &search{c: c, w: newWorld(c), res: res, sigs: map[string]bool{}, maxWall: p.MaxWall}
 	s.nodes = append(s.nodes, node{}) // index 0 = "no parent"
@@ -617,6 +642,7 @@ func runSeq(c config, p seqPlan) *seqResult {
 // replaySeq prints one history step by step.
 func replaySeq(c config, hist []string) bool {
 	installClock()
+	shortHorizon = c.capF() < 1
 	w := newWorld(c)
 	fmt.Printf("replay: %s, history %v\n", c, hist)
 	show := func(what string) {
